@@ -73,6 +73,11 @@ def mutants(kind, b, rng, quick):
             if i % 4 == 0 or not quick:
                 out.append(('element window 0xFF', b[:i] + b'\xff' * w + b[i + w:]))
                 out.append(('element window tag+zero', b[:i] + bytes([2 + (i & 1)]) + bytes(w - 1) + b[i + w:]))
+    # two bytes replaced by the name separator "::" (a name containing it, an emptied component) and by two spaces: names are
+    # not validated on read, every accessor must cope
+    for i in list(range(0, min(n - 1, 160))) + list(range(max(160, n - 300), n - 1)):
+        out.append(('two bytes replaced by "::"', b[:i] + b'::' + b[i + 2:]))
+        if i % 3 == 0: out.append(('two bytes replaced by spaces', b[:i] + b'  ' + b[i + 2:]))
     # trailing garbage and random strings
     out.append(('trailing byte', b + b'\x00')); out.append(('trailing bytes', b + bytes(40)))
     for _ in range(60 if quick else 2000):
